@@ -228,3 +228,156 @@ pub fn two_step_histories(ctx: &mut Ctx, prop: &'static str, fam: Family) -> Sub
     ctx.require(&r3, &["third_call"]);
     r
 }
+
+
+// ---------------------------------------------------------------------------------------------
+// Alternation with an anchor over ALL dates: the sequence a, b1, a, b2, a, b3 ... on one thread puts
+// every date b directly after (and directly before) a fixed anchor a, for two anchors.  A stale
+// hit of any cache keyed on a narrowed / hashed form of the argument shows as a wrong result for
+// the b (or the a) whose key collides with the other's.
+// ---------------------------------------------------------------------------------------------
+
+fn observe_light(fam: Family, n: i32, fmt: &sqldatetime::Formatter) -> (Vec<Option<i64>>, String) {
+    let d = Date::try_from_days(n).unwrap();
+    let ts = Timestamp::new(d, Time::try_from_usecs(12 * US_HOUR + 1).unwrap());
+    let mut out = Vec::with_capacity(16);
+    let mut text = String::new();
+    match fam {
+        Family::Accessors => {
+            out.extend([d.year().map(|x| x as i64), d.month().map(|x| x as i64), d.day().map(|x| x as i64), Some(d.day_of_week() as i64), Some(d.last_day_of_month().days() as i64),
+                ts.year().map(|x| x as i64), ts.day().map(|x| x as i64), DateTime::date(&ts).map(|x| x.days() as i64), Some(ts.last_day_of_month().usecs())]);
+            text.reserve(24);
+            let _ = fmt.format(d, &mut text);
+        }
+        Family::Trunc => {
+            for u in 0..12 { out.push(trunc_date(u, d).ok().map(|x| x.days() as i64 * US_DAY)); }
+            for u in [2usize, 5, 9] { out.push(trunc_ts(u, ts).ok().map(|x| x.usecs())); }
+        }
+        Family::Round => {
+            for u in 0..12 { out.push(round_date(u, d).ok().map(|x| x.days() as i64 * US_DAY)); }
+            for u in [5usize, 9] { out.push(round_ts(u, ts).ok().map(|x| x.usecs())); }
+        }
+    }
+    (out, text)
+}
+
+fn expected_light(w: &World, fam: Family, n: i32) -> (Vec<Option<Option<i64>>>, String) {
+    let c = w.cal.at(n);
+    let dr = day_ref(w, n);
+    let mut out = Vec::with_capacity(16);
+    let mut text = String::new();
+    let conv = |e: Exp| match e { Exp::Val(v) => Some(Some(v as i64)), Exp::Fail => Some(None), Exp::Either(..) => None };
+    match fam {
+        Family::Accessors => {
+            let last = n as i64 + (refmodel::calendar::month_len(c.y, c.m) - c.d) as i64;
+            for v in [c.y as i64, c.m as i64, c.d as i64, c.wd as i64, last, c.y as i64, c.d as i64, n as i64, last * US_DAY + 12 * US_HOUR + 1] { out.push(Some(Some(v))); }
+            text = format!("{:04}-{:02}-{:02} {:03}", c.y, c.m, c.d, c.doy);
+        }
+        Family::Trunc => {
+            for u in 0..12 { out.push(Some(if u >= 9 { Some(n as i64 * US_DAY) } else { ref_trunc(&dr, u, &c, 0).map(|x| x as i64) })); }
+            for u in [2usize, 5, 9] { out.push(Some(ref_trunc(&dr, u, &c, 12 * US_HOUR + 1).map(|x| x as i64))); }
+        }
+        Family::Round => {
+            for u in 0..12 {
+                let skip = u == 0 && c.y % 100 == 0;
+                let e = if u >= 9 { Exp::Val(n as i128 * US_DAY as i128) } else { ref_round(w, &dr, u, &c, 0, DATE_MAX_US) };
+                out.push(if skip { None } else { conv(e) });
+            }
+            for u in [5usize, 9] { out.push(conv(ref_round(w, &dr, u, &c, 12 * US_HOUR + 1, TS_MAX))); }
+        }
+    }
+    (out, text)
+}
+
+pub fn alternating_with_anchor(ctx: &mut Ctx, prop: &'static str, fam: Family) -> SubReport {
+    let w = world();
+    let anchors = [w.cal.min_day, w.cal.day_number(2000, 1, 1)];
+    let exp_anchor: Vec<(Vec<Option<Option<i64>>>, String)> = anchors.iter().map(|&a| expected_light(w, fam, a)).collect();
+    let total = w.cal.total_days() as u64;
+    let ea = &exp_anchor;
+    let r = ctx.sweep("alternating_with_anchor_all_dates", "the call sequence a, b1, a, b2, a, b3, ... on one thread for every date b and two anchors a (0001-01-01, 2000-01-01): every result of both is compared with the reference", total, 4096, |range, acc| {
+        let fmt = sqldatetime::Formatter::try_new("YYYY-MM-DD DDD").unwrap();
+        for idx in range {
+            let b = w.cal.min_day + idx as i32;
+            acc.states += 1;
+            let (want_b, text_b) = expected_light(w, fam, b);
+            for (ai, &a) in anchors.iter().enumerate() {
+                acc.t(2);
+                acc.traces += 1;
+                let got = guard(|| (observe_light(fam, a, &fmt), observe_light(fam, b, &fmt)));
+                let ((ga, ta), (gb, tb)) = match got { Ok(x) => x, Err(()) => { acc.fail(&format!("{prop}:history:panic"), idx, || (format!("{fam:?} of day {a} then day {b}"), "no panic".into(), "panic".into(), String::new())); continue; } };
+                let bad_a = ga.iter().zip(ea[ai].0.iter()).position(|(g, e)| matches!(e, Some(e) if g != e)).map(|i| (i, true)).or(if fam == Family::Accessors && ta != ea[ai].1 { Some((99, true)) } else { None });
+                let bad_b = gb.iter().zip(want_b.iter()).position(|(g, e)| matches!(e, Some(e) if g != e)).map(|i| (i, false)).or(if fam == Family::Accessors && tb != text_b { Some((99, false)) } else { None });
+                acc.cls("alternation_step");
+                if let Some((i, is_anchor)) = bad_a.or(bad_b) {
+                    acc.fail(&format!("{prop}:history:result-depends-on-the-previous-call"), idx, || (format!("one thread: ... day {a}, day {b}, day {a}, ... ({fam:?} observations); wrong: observation #{i} of the {}", if is_anchor { "anchor (called right after the previous date)" } else { "date (called right after the anchor)" }),
+                        format!("{:?} / {:?}", if is_anchor { &ea[ai].0 } else { &want_b }, if is_anchor { &ea[ai].1 } else { &text_b }), format!("{:?} / {:?}", if is_anchor { &ga } else { &gb }, if is_anchor { &ta } else { &tb }), String::new()));
+                }
+            }
+        }
+    });
+    ctx.require(&r, &["alternation_step"]);
+    r
+}
+
+// ---------------------------------------------------------------------------------------------
+// The first call in a fresh PROCESS (process-wide lazily initialised state): for every date of a
+// small alphabet a child process of this binary makes that date's observations its very first calls
+// into the crate, then observes two fixed dates; the parent compares all three with the reference.
+// ---------------------------------------------------------------------------------------------
+
+pub fn fam_name(f: Family) -> &'static str {
+    match f { Family::Accessors => "accessors", Family::Trunc => "trunc", Family::Round => "round" }
+}
+
+pub fn fam_parse(s: &str) -> Option<Family> {
+    match s { "accessors" => Some(Family::Accessors), "trunc" => Some(Family::Trunc), "round" => Some(Family::Round), _ => None }
+}
+
+/// Child side: `sqldt-mc first-call <family> <day>`.
+pub fn child_first_call(fam: Family, day: i32) {
+    for n in [day, 18_739, 0] {
+        let v = observe(fam, n);
+        let strs: Vec<String> = v.iter().map(|x| match x { Some(v) => v.to_string(), None => "E".to_string() }).collect();
+        println!("OBS {}", strs.join(","));
+    }
+}
+
+pub fn first_call_in_fresh_process(ctx: &mut Ctx, prop: &'static str, fam: Family) -> SubReport {
+    let w = world();
+    let cal = &w.cal;
+    let mut days: Vec<i32> = vec![0, cal.min_day, cal.max_day, 18_739];
+    for y in [100, 200, 300, 400, 500, 1000, 1500, 1600, 1700, 1800, 1900, 2000, 2100, 2200, 2300, 2400, 4000, 9900] {
+        days.push(cal.day_number(y, 6, 1));
+        days.push(cal.day_number(y, 1, 1));
+    }
+    for (y, m, d) in [(2024, 2, 29), (2023, 12, 31), (1969, 12, 31), (2021, 1, 3), (1582, 10, 10)] { days.push(cal.day_number(y, m, d)); }
+    days.sort();
+    days.dedup();
+    let exe = match std::env::current_exe() { Ok(e) => e, Err(e) => { ctx.machinery_failure(format!("current_exe: {e}")); return ctx.absorb_external("first_call_in_a_fresh_process", "", explorer::Acc::new("first_call_in_a_fresh_process")); } };
+    let dr = &days;
+    let r = ctx.sweep_each("first_call_in_a_fresh_process", "for every date of a 45-date alphabet (century years, epoch, range ends, leap days) a child process makes that date's observations its first calls into the crate, then observes two fixed dates; all three are compared with the reference", days.len() as u64, 1, |idx, acc| {
+        let day = dr[idx as usize];
+        acc.states += 1;
+        acc.t(3);
+        acc.traces += 1;
+        let out = std::process::Command::new(&exe).arg("first-call").arg(fam_name(fam)).arg(day.to_string()).output();
+        let text = match out { Ok(o) if o.status.success() => String::from_utf8_lossy(&o.stdout).to_string(), Ok(o) => {
+            acc.fail(&format!("{prop}:history:first-call-in-a-fresh-process-panics"), idx, || (format!("child process: {fam:?} observations of day {day} as the first calls"), "exit 0".into(), format!("status {:?}", o.status.code()), String::new())); return; }
+            Err(_) => { acc.cls("spawn_failed"); return; } };
+        let lines: Vec<&str> = text.lines().filter_map(|l| l.strip_prefix("OBS ")).collect();
+        acc.cls("first_call");
+        acc.nontrivial += 1;
+        for (k, n) in [day, 18_739, 0].iter().enumerate() {
+            let want = expected(w, fam, *n);
+            let got: Vec<Option<i64>> = lines.get(k).map(|l| l.split(',').map(|x| x.parse::<i64>().ok()).collect()).unwrap_or_default();
+            let bad = got.len() != want.len() || got.iter().zip(want.iter()).any(|(g, e)| matches!(e, Some(e) if g != e));
+            if bad {
+                acc.fail(&format!("{prop}:history:depends-on-the-first-call-of-the-process"), idx, || (format!("child process whose first calls are the {fam:?} observations of day {day}: observations of day {n} (call group {k})"), format!("{want:?}"), format!("{got:?}"), String::new()));
+                break;
+            }
+        }
+    });
+    ctx.require(&r, &["first_call"]);
+    r
+}
